@@ -14,7 +14,7 @@ import ast
 
 from ..astutil import dotted, src, walk_local, local_assignments, calls, dominating_guards
 from ..dispatch import dispatcher, ops_handled, unary_ops, binary_ops, exact_arm
-from ..report import AnalysisError
+from ..report import AnalysisError, Frag
 from .c01 import evaluator_builders, _child_roles, arm_env
 
 PAIRS = [
@@ -316,8 +316,8 @@ def _degree_stack(fi):
     """Phase machine: phase 0 pushes (self,1) then left; phase 1 pops the LEFT result and pushes (self,2,left) then
     right; phase 2 pops the RIGHT result and combines with the carried left degree."""
     s = src(fi.node)
-    p0 = "stack.append((node, 1, None, None))" in s and "stack.append((node.left, 0, None, None))" in s
-    p1 = "left_result = result_stack.pop()" in s and "stack.append((node, 2, left_result, None))" in s and "stack.append((node.right, 0, None, None))" in s
+    p0 = Frag(s, "stack.append((node, 1, None, None))", "stack.append((node.left, 0, None, None))")
+    p1 = Frag(s, "left_result = result_stack.pop()", "stack.append((node, 2, left_result, None))", "stack.append((node.right, 0, None, None))")
     p2 = "right_result = result_stack.pop()" in s
     # order inside phase 0 / 1: self is pushed before the child (so the child is processed first)
     order0 = s.find("stack.append((node, 1, None, None))") < s.find("stack.append((node.left, 0, None, None))")
@@ -328,5 +328,5 @@ def _degree_stack(fi):
 
 def _gradient_results_by_id(fi):
     s = src(fi.node)
-    ok = "results[node_id]" in s and "node_id = id(current)" in s and "results[id(left)]" in s and "results[id(right)]" in s and "results[id(operand)]" in s
+    ok = Frag(s, "results[node_id]", "node_id = id(current)", "results[id(left)]", "results[id(right)]", "results[id(operand)]")
     return ok, ("child gradients are looked up by the identity of the child node (order-free); nodes stay alive through the tree" if ok else "child gradients are not looked up by id(left)/id(right)/id(operand)")
